@@ -56,7 +56,7 @@ PROPS["C06"] = {
     "assumptions": SCHED_ASSUME + ["C06(a) PROVED under stated preconditions of Work::run: the `BUG: no work to do` panic is unreachable (panic! is a `requires false` obligation; no assume). The liveness invariant lv = (a Want step has a producer that is not Done) + (Ready steps are in the ready queue, Queued steps in a pool queue, the popped one excepted) + (wanted set closed under ordering inputs) + (the wanted part of the graph is acyclic: a topological numbering exists -- NOT assumed: want_build numbers a step above all others when it leaves Unknown, which happens only after the producers of its ordering inputs are wanted; a cycle is turned into an error by the stack check before that) is established by Work::new, kept by want_build/want_file/want_every_file/pop_ready/pop_queued/set/enqueue/ready_dependents and by graph changes of record_finished; at the panic point (no failure, nothing running, ready queue empty, no pool with capacity and a queued step, something pending) a Want step of minimal topological rank gives the contradiction",
                     "Work::run preconditions NOT discharged by a verified caller (run::build's calls are behind the protocol stubs of unit run): -j >= 1 (proved for run::parse_args' result, unit run), every step is listed among the dependents of its ordering inputs (deps_complete; Graph::add_build is proved to keep it in unit graph)",
                     "'every wanted step ends up to date' is decided as: Ok(true) only when every wanted step is Done, and the loop cannot stall; that the trusted Runner::wait eventually returns (commands terminate) is assumed",
-                    "cycle *reporting* text is dropped (R4); that a cycle yields Err is by the stack check, that no step of a cycle becomes Ready follows from inv1 but is not stated as a separate clause"],
+                    "cycle *reporting* text is dropped (R4). 'A dependency cycle among requested steps is reported as an error' is decided as: Work::want_file returning Ok implies the wanted steps have a topological numbering along ordering inputs (postcondition wacyc), and every want function terminates; validation inputs are not part of the numbering (a cycle closed only by a validation edge is accepted); 'without running any step of the cycle' is run::build's `?` on want_file before Work::run (unit run)"],
 }
 
 PROPS["C18"] = {
